@@ -439,6 +439,10 @@ def check(ctx):
 
 
 MUTANTS = [
+    Mutant("F19h-revert-huge-content-length-escapes", HTTP, "            try:\n                length = int(data)\n            except ValueError:\n                # More digits than Python is willing to convert: no request\n                # body can be that long.\n                return self._failChooseTransferDecoder()\n",
+           "            length = int(data)\n", expect_rule="framing/content-length-huge"),
+    Mutant("huge-content-length-error-swallowed", HTTP, "                # body can be that long.\n                return self._failChooseTransferDecoder()\n", "                # body can be that long.\n                length = 0\n",
+           expect_rule="framing/content-length-huge"),
     Mutant("F19b-revert-header-result-dropped", HTTP, "                ok = self.headerReceived(self.__header)\n                # If the header we just got is invalid, we MUST NOT proceed\n                # with processing. We'll have sent a 400 anyway, so just stop.\n                if not ok:\n                    return\n            self.__header = line",
            "                self.headerReceived(self.__header)\n            self.__header = line", expect_rule="mustpass/result-used"),
     Mutant("F19b-revert-seen-by-the-bounded-layer", HTTP, "                ok = self.headerReceived(self.__header)\n                # If the header we just got is invalid, we MUST NOT proceed\n                # with processing. We'll have sent a 400 anyway, so just stop.\n                if not ok:\n                    return\n            self.__header = line",
